@@ -211,6 +211,51 @@ class OpCase:
     run_C05 = run_value
     run_C06 = run_value
 
+    # ------------------------------------------------------------------ dtype / shape facts (C10)
+    def run_C10(self, env):
+        out = E.Outcome()
+        specs, ts, arrays, names = self._make_inputs(env, True)
+        extra = self.opdef.extra(self.args, env)
+        try:
+            o = self.opdef.forward(self.args, ts, extra)
+        except Exception as e:  # noqa: BLE001
+            if isinstance(e, sc.Unsupported):
+                raise
+            out.rejected = "%s: %s" % (type(e).__name__, e)
+            return out
+        outs = as_list(o)
+        Tn = T()
+        in_dts = {str(t.dtype) for sp, t in zip(specs, ts) if str(t.dtype).startswith("float")}
+        gdtype = np.dtype(self.variant.get("gdtype", "float32"))
+        for k, oo in enumerate(outs):
+            if len(in_dts) == 1:
+                want = next(iter(in_dts))
+                out.fact("out%d:dtype" % k, str(oo.dtype) == want,
+                         "result dtype %s for %s operands (result shape %s)" % (oo.dtype, want, tuple(oo.shape)))
+            out.notes["obs:out%d" % k] = oo.data
+        for k, oo in enumerate(outs):
+            if not oo.requires_grad:
+                continue
+            g = env.arr("g%d" % k, oo.shape, gdtype, lo=-2, hi=2)
+            oo.backward(Tn(g))
+            rg = oo.grad
+            out.fact("out%d:root-grad" % k, rg is not None and str(rg.dtype) == str(oo.dtype) and tuple(rg.shape) == tuple(oo.shape),
+                     "root .grad dtype %s shape %s for a %s tensor of shape %s seeded with a %s gradient" % (
+                         None if rg is None else rg.dtype, None if rg is None else tuple(rg.shape), oo.dtype,
+                         tuple(oo.shape), gdtype))
+        for sp, t in zip(specs, ts):
+            if not t.requires_grad:
+                continue
+            gr = t.grad
+            if gr is None:
+                out.fact(sp.label + ":grad", False, "no .grad after backward")
+                continue
+            out.fact(sp.label + ":grad", str(gr.dtype) == str(t.dtype) and tuple(gr.shape) == tuple(t.shape),
+                     ".grad dtype %s shape %s for a %s tensor of shape %s (upstream gradient %s)" % (
+                         gr.dtype, tuple(gr.shape), t.dtype, tuple(t.shape), gdtype))
+            out.notes["obs:grad(%s)" % sp.label] = t._grad
+        return out
+
 
 def _exp_all(x, c=1):
     nd = x._nd if isinstance(x, ar.SymArray) else None
